@@ -267,7 +267,7 @@ def make_objective(b: Built, o, p):
 
 
 def build(p, quiet=True, roundtrip=False, early_solver=None, two_phase=False, interleave=False, resolve=False,
-          later_problem=False) -> Built:
+          later_problem=False, other_midway=False) -> Built:
     """roundtrip=True: every task and plain worker is first created in a scratch problem, dumped with
     to_json() and re-created in the real problem with SchedulingProblem.add_from_json().
 
@@ -277,6 +277,9 @@ def build(p, quiet=True, roundtrip=False, early_solver=None, two_phase=False, in
     two_phase=True: the model is declared without the requirements / buffer accesses of the last task that has
         some, and without constraints, indicators and objectives; a first solver solves that part; the rest is
         declared afterwards (the caller then creates a NEW solver);
+    other_midway=True: another problem is created (completely) BEFORE this one; it is solved in the middle of this
+        problem's declaration (after the tasks, before everything else): solving a problem does not change where
+        later declarations go;
     later_problem=True: ANOTHER, unrelated SchedulingProblem (other horizon, a task and a worker of its own) is created
         after this model is complete and before its solver is created (make_solver does it): a solver works on the
         problem it was given, not on the problem created last;
@@ -304,6 +307,11 @@ def build(p, quiet=True, roundtrip=False, early_solver=None, two_phase=False, in
         kw["delta_time"] = datetime.timedelta(seconds=p["delta_time"][0])
     if p.get("start_time"):
         kw["start_time"] = datetime.datetime.fromisoformat(p["start_time"][0])
+    other = None
+    if other_midway:
+        other = ps.SchedulingProblem(name="OtherProblem", horizon=3)
+        ot = ps.FixedDurationTask(name="OtherTask", duration=2)
+        ot.add_required_resource(ps.Worker(name="OtherWorker"))
     b.problem = ps.SchedulingProblem(**kw)
     b.early_solver = None
     if early_solver is not None:
@@ -318,6 +326,9 @@ def build(p, quiet=True, roundtrip=False, early_solver=None, two_phase=False, in
     seen_workers = set()
     for i, tk in enumerate(p["tasks"]):
         b.tasks.append(b.problem.add_from_json(task_json[i]) if roundtrip else make_task(tk))
+    if other is not None:
+        with silence():
+            ps.SchedulingSolver(problem=other).solve()
     # workers: plain ones directly, unit workers through their cumulative worker
     b.workers = [None] * len(p["workers"])
     done_cumul = set()
